@@ -242,7 +242,7 @@ func runC20(c Case, st *Stats) error {
 			}
 			for j, r := range tr.AfterRes {
 				if r.Panic != "" {
-					return finish(report(i, fmt.Sprintf("call %s on the finished transaction: %s", s.After[j], r.Panic)))
+					return finish(report(i, fmt.Sprintf("call %s on the finished transaction: %s", s.After[j%len(s.After)], r.Panic)))
 				}
 			}
 			calls += len(tr.Res) + len(tr.AfterRes)
